@@ -102,6 +102,18 @@ def instances(tier):
             for off in ("absent", "true"):
                 out.append(Instance("C06", "c01:u_law", dict(kind=kind, form="const", phase=ph_mode, off=off), cover=["iin-evaluated"]))
     if tier == "thorough":
+        import itertools
+
+        ph3 = ["a", "b", "c"]
+        subsets = [list(c) for r in (1, 2) for c in itertools.combinations(ph3, r)]
+        for i, (sc, sl) in enumerate(itertools.product(subsets, subsets)):
+            if i % 3:
+                continue  # every third combination of (converter activity, load table) keeps the run below ten minutes
+            shp = S(N("S", "Source", only=()), N("C", "Converter", "S", phases=sc, only=("iis", "iq")), N("L", "PLoad", "C", phases=sl, only=("pwrs",)),
+                    N("L2", "ILoad", "S", phases=sl, only=("iis",)), phases=ph3)
+            for p in ph3:
+                out.append(Instance("C06", "c06:s_phases", dict(shape=shp, phase=p), name="S/3ph/%s/%s@%s" % ("".join(sc), "".join(sl), p), uf=True,
+                                    cover=["solved"], weight=5))
         sh3 = S(N("S", "Source", only=()), N("C", "Converter", "S", phases=["a", "c"], only=("iis",)), N("L", "PLoad", "C", phases=["a", "b"]),
                 phases=["a", "b", "c"])
         for p in sh3["phases"]:
